@@ -173,9 +173,10 @@ class Sink(core.MockBase):
                 ok = col is not None
                 core.side(f'pix:column{i_row}-filled-for-this-chunk', z3.BoolVal(ok))
                 if ok:
-                    lo, ln, row_index, unit_ok = col
+                    lo, ln, row_index, unit_ok, once = col
                     core.side(f'pix:column{i_row}-holds-row{i_row}', z3.BoolVal(row_index == i_row))
                     core.side(f'pix:column{i_row}-converted-to-declared-unit', z3.BoolVal(bool(unit_ok)))
+                    core.side(f'pix:column{i_row}-rounded-once(conversion-sees-the-supplied-precision)', z3.BoolVal(bool(once)))
                     core.side(f'pix:column{i_row}-source-range-continues-output', z3.And(I(lo) == I(self.pix_emitted), I(ln) == I(n)))
             self.pix_emitted = self.pix_emitted + n
             self._emit(n * buf.n_cols * buf.itemsize, 'pixels', None)
@@ -233,7 +234,7 @@ class SymBuffer(core.MockBase):
         # numpy: the assigned array must have exactly n elements (or broadcast from one)
         core.side('pix:assigned-slice-length==chunk-rows', I(value.length) == I(n))
         core.side('pix:chunk-fits-buffer', z3.And(I(n) >= 0, I(n) <= I(self.n_pix)))
-        self.cols[i_row] = (value.lo, value.length, value.row.index, value.unit_ok)
+        self.cols[i_row] = (value.lo, value.length, value.row.index, value.unit_ok, value.rounded_once)
 
 
 class BufSlice(core.MockBase):
@@ -245,8 +246,9 @@ class SymRow(core.MockBase):
     """One pixel row: a 1-d scipp variable of symbolic length N with a (concrete) unit."""
     bins = None
 
-    def __init__(self, index, n, unit, name=''):
+    def __init__(self, index, n, unit, name='', declared=None):
         self.index, self.n, self.unit, self.name = index, n, unit, name
+        self.declared = declared     # unit the file format declares for this row (None: not checked here)
         self.dims = ('pixel',)
 
     def __vf_len__(self):
@@ -275,9 +277,15 @@ class RowStat(core.MockBase):
         self.row, self.what = row, what
 
 
+def _dtype_name(dt):
+    return str(dt).replace('DType.', '')
+
+
 class RowSlice(core.MockBase):
-    def __init__(self, row, lo, hi):
-        self.row, self.lo, self.hi = row, lo, hi
+    """row[lo:hi] of a pixel row (float64 input data); `casts`: dtype conversions applied so far"""
+
+    def __init__(self, row, lo, hi, casts=()):
+        self.row, self.lo, self.hi, self.casts = row, lo, hi, tuple(casts)
 
     def _to_unit(self, unit, copy=True):
         from vf.units import as_unit, UnitError
@@ -291,21 +299,57 @@ class RowSlice(core.MockBase):
             raise UnitError(f'Conversion from `{src}` to `{unit}` is not valid.')
         return ConvertedSlice(self, tgt, True)
 
+    def to(self, *, unit=None, dtype=None, copy=True):
+        r = self
+        if dtype is not None and unit is None:
+            return RowSlice(self.row, self.lo, self.hi, self.casts + (_dtype_name(dtype),))
+        if unit is not None:
+            r = self._to_unit(unit, copy=copy)
+            if dtype is not None:
+                r = r.to(dtype=dtype, copy=False)
+            return r
+        raise ValueError('Must provide dtype or unit or both')
+
+    def astype(self, dtype, *, copy=True):
+        return self.to(dtype=dtype, copy=copy)
+
+    def copy(self, deep=True):
+        return self
+
+    @property
+    def values(self):       # no unit conversion at all
+        return RowValues(self.row, self.lo, self.hi - self.lo, self.row.unit, casts_before=self.casts)
+
 
 class ConvertedSlice(core.MockBase):
-    def __init__(self, sl, unit, ok):
-        self.sl, self.unit, self.ok = sl, unit, ok
+    def __init__(self, sl, unit, ok, casts_after=()):
+        self.sl, self.unit, self.ok, self.casts_after = sl, unit, ok, tuple(casts_after)
+
+    def to(self, *, unit=None, dtype=None, copy=True):
+        if unit is not None:
+            raise Unsupported('second unit conversion of a pixel row')
+        return ConvertedSlice(self.sl, self.unit, self.ok, self.casts_after + (_dtype_name(dtype),))
+
+    def astype(self, dtype, *, copy=True):
+        return self.to(dtype=dtype, copy=copy)
 
     @property
     def values(self):
-        return RowValues(self.sl.row, self.sl.lo, self.sl.hi - self.sl.lo, self.unit)
+        return RowValues(self.sl.row, self.sl.lo, self.sl.hi - self.sl.lo, self.unit, casts_before=self.sl.casts)
 
 
 class RowValues(core.MockBase):
-    def __init__(self, row, lo, length, unit):
+    def __init__(self, row, lo, length, unit, casts_before=()):
+        from vf.units import as_unit
         self.row, self.lo, self.length, self.unit = row, lo, length, unit
-        self.unit_ok = True
+        declared = getattr(row, 'declared', None)
+        try:
+            self.unit_ok = declared is None or (unit is not None and as_unit(unit) == as_unit(declared))
+        except Exception:  # noqa: BLE001
+            self.unit_ok = False
         self.declared_unit = unit
+        # "rounded once to float32": the conversion must see the supplied double-precision values (the float32 staging buffer rounds)
+        self.rounded_once = not any(c in ('float32', 'int32', 'int64') for c in casts_before)
 
 
 def vf_len(x):
